@@ -285,6 +285,11 @@ func Property() runner.Property {
 					s.Scenario.Mode, s.Scenario.Bound = "D0", 0
 					out = append(out, s)
 				}
+				// a burst well below every buffer of the path (30 changes at once, buffers hold 100): nothing is lost,
+				// however far any stage lags behind (deviation-bounded: which stage lags is the schedule's choice)
+				out = append(out, burstScenario(pre, long[:30], ""))
+				// ... in particular the controller's own publisher (made slow through its log line)
+				out = append(out, burstScenario(pre, long[:30], "distribute event:"))
 				var many []ctl.Mut
 				for i := 0; i < 300; i++ {
 					many = append(many, ctl.Mut{Op: "set", Name: fmt.Sprintf("o%03d", i), Labels: fmt.Sprintf("l=%d", i%2)})
@@ -367,7 +372,10 @@ func C05Controller(tier string) []runner.Sc {
 		return msgs
 	}
 	mk := func(name string, c ctl.Cfg) runner.Sc {
-		c.Name, c.Period, c.Tree, c.Pre, c.Mode, c.Bound = "controller/"+name, P, tree, pre, "S2", d
+		c.Name, c.Period, c.Tree, c.Pre, c.Mode = "controller/"+name, P, tree, pre, "S2"
+		if c.Bound == 0 {
+			c.Bound = d
+		}
 		if c.ReadAt == 0 {
 			c.ReadAt = 5 * time.Second
 		}
@@ -380,7 +388,28 @@ func C05Controller(tier string) []runner.Sc {
 		// the watch loses a delete that comes after newer events for other objects: the relist's Delete (which carries
 		// the old cached version) must still reach every subscriber
 		mk("watch-drops-delete/relist-finds-it", ctl.Cfg{Hist: []ctl.Mut{{Op: "set", Name: "b", Labels: "l=1"}, {Op: "del", Name: "a"}}, WatchFaults: map[int]fakeapi.WatchFault{1: {Kind: "drop", After: 1}}, ReadAt: 8 * time.Second}),
+		// 30 changes at once - far below every buffer on the way (100) - with the controller's own publisher made slow
+		// (its log line takes 2 ms) and without: every subscriber receives all of them
+		mk("burst-of-30/slow-publisher", ctl.Cfg{Hist: burst30(), SlowLogPrefix: "distribute event:", ReadAt: 2 * time.Second, Bound: 1}),
+		mk("burst-of-30", ctl.Cfg{Hist: burst30(), ReadAt: 2 * time.Second, Bound: 1}),
 	}
+}
+
+func burst30() []ctl.Mut {
+	var h []ctl.Mut
+	for i := 0; i < 30; i++ {
+		switch i % 4 {
+		case 0:
+			h = append(h, ctl.Mut{Op: "set", Name: "a", Labels: "l=0"})
+		case 1:
+			h = append(h, ctl.Mut{Op: "set", Name: "b", Labels: "l=1"})
+		case 2:
+			h = append(h, ctl.Mut{Op: "set", Name: "a", Labels: "l=1"})
+		default:
+			h = append(h, ctl.Mut{Op: "del", Name: "b"})
+		}
+	}
+	return h
 }
 
 // C02Controller: the public-path half of C02 - through the real controller an unfiltered subscriber (and a
@@ -448,4 +477,19 @@ func C02Controller(tier string) []runner.Sc {
 		mk("stale-relist", ctl.Cfg{Hist: []ctl.Mut{{Op: "set", Name: "a", Labels: "l=1", Delay: 3500 * time.Millisecond}, {Op: "set", Name: "b", Labels: "l=1"}}, ListFaults: map[int]fakeapi.ListFault{2: {Latency: time.Second, Stale: true}}, ReadAt: 5 * time.Second}),
 		mk("watch-drop@0", ctl.Cfg{Hist: late, WatchFaults: map[int]fakeapi.WatchFault{1: W("drop", 0)}}),
 	}
+}
+
+// burstScenario: the history without its pacing (all changes at once), a subscriber, real buffer sizes.
+func burstScenario(pre, hist []ctl.Mut, slow string) runner.Sc {
+	var h []ctl.Mut
+	for _, m := range hist {
+		m.Delay = 0
+		h = append(h, m)
+	}
+	name := "burst-below-the-buffers/30-changes"
+	if slow != "" {
+		name += "/slow-publisher"
+	}
+	c := ctl.Cfg{Name: name, SlowLogPrefix: slow, Period: P, Tree: []hx.Spec{{Kind: "sub"}}, Mode: "S2", Bound: 1, Pre: pre, Hist: h, ReadAt: 2 * time.Second}
+	return ctl.Scenario("C03", c, oracle)
 }
